@@ -449,6 +449,11 @@ theorem reshape_nil {h : Heap α} {a : Arr} (g : Geo a.v) (ok : ArrOK h a) (hsz 
   obtain ⟨b, hb⟩ := (contiguous_iff_geo g).2
   obtain ⟨vals, hv, _⟩ := elems_ok g ok
   have hroot : ∀ st, View.root [] st = .error "index-out-of-range" := fun _ => rfl
+  have hr0 : r = false := by
+    cases r with
+    | false => rfl
+    | true => simp [pure, Except.pure] at hr
+  subst hr0
   unfold reshape
   simp only [bind, Except.bind, pure, Except.pure] at hr ⊢
   rw [if_neg (by simpa using hsz)]
@@ -460,7 +465,7 @@ theorem reshape_nil {h : Heap α} {a : Arr} (g : Geo a.v) (ok : ArrOK h a) (hsz 
     | false => exact ⟨.fresh vals, by rw [unroll_gather (Or.inr hb), unrollGather_eq g, hv]; rfl⟩
   cases hC : a.isC with
   | true =>
-    cases b <;> cases r <;> simp [unrollGather_eq g, hv, hroot, alloc]
+    cases b <;> simp [unrollGather_eq g, hv, hroot, alloc]
   | false =>
     obtain ⟨u, hu⟩ := hu hC
     cases u <;> simp [hu, hroot, implOf, alloc]
@@ -559,6 +564,47 @@ theorem reshapeFast_noncontig {h : Heap α} {a : Arr} (s : Idx) (hc : a.v.contig
 theorem reshapeFast_contig {h : Heap α} {a : Arr} (s : Idx) (hc : a.v.contiguous = .ok true) :
     reshapeFast h a s = reshape h a s := by
   simp [reshapeFast, hc, bind, Except.bind]
+
+/-! ### `Maximum()` / `Minimum()` -/
+
+/-- loop body "read element, combine with the accumulator" -/
+def keepBody {β : Type} (h : Heap α) (a : Arr) (step : β → α → β) : β → Idx → R β :=
+  fun res idx => do let v ← Nd.get h a idx; pure (step res v)
+
+theorem foldIdx_keepBody {β : Type} (h : Heap α) (a : Arr) (step : β → α → β) :
+    ∀ (l : List Idx) (r : β),
+      foldIdx (keepBody h a step) l r = (getAll h a l).map (fun vals => vals.foldl step r)
+  | [], r => rfl
+  | i :: is, r => by
+    cases hx : Nd.get h a i with
+    | error m =>
+      have e : keepBody h a step r i = .error m := by simp [keepBody, hx, bind, Except.bind]
+      simp only [foldIdx, getAll, e, hx, bind, Except.bind]
+      rfl
+    | ok x =>
+      have e : keepBody h a step r i = .ok (step r x) := by simp [keepBody, hx, bind, Except.bind, pure, Except.pure]
+      simp only [foldIdx, getAll, e, hx, bind, Except.bind, pure, Except.pure]
+      rw [foldIdx_keepBody h a step is (step r x)]
+      cases getAll h a is <;> rfl
+
+theorem extremum_eq {h : Heap α} {a : Arr} (g : Geo a.v) (better : α → α → Bool) {v0 : α} {rest : List α}
+    (hv : getAll h a (rowMajor a.v.dims) = .ok (v0 :: rest)) :
+    extremum better h a = .ok ((v0 :: rest).foldl (fun res v => if better v res then v else res) v0) := by
+  have hp := g.pos_dims
+  have hp1 := product_pos hp
+  obtain ⟨x, hx1, hx2⟩ := elems_getElem hv 0 (by omega)
+  simp only [List.getElem?_cons_zero, Option.some.injEq] at hx1
+  subst hx1
+  have hx3 : Nd.get h a (uniform a.v.dims.length 0) = .ok v0 := by rw [← unravel_zero hp]; exact hx2
+  show (do
+    let res ← Nd.get h a (uniform a.v.dims.length 0)
+    forIdx a.v.dims (keepBody h a (fun res v => if better v res then v else res)) (product a.v.dims).toNat
+      (uniform a.v.dims.length 0) res) = _
+  rw [hx3]
+  show forIdx a.v.dims (keepBody h a (fun res v => if better v res then v else res)) (product a.v.dims).toNat
+      (uniform a.v.dims.length 0) v0 = _
+  rw [forIdx_rowMajor hp, foldIdx_keepBody, hv]
+  rfl
 
 end
 end OW.NdC02
